@@ -269,10 +269,10 @@ theorem wordIdx_error {wl : List Nat} {w : Nat} {e : Err} (h : wordIdx wl w = .e
   | none => rw [hi] at h; cases h; exact ⟨rfl, List.idxOf?_eq_none_iff.mp hi⟩
   | some j => rw [hi] at h; cases h
 
-theorem wordIdx_of_not_mem {wl : List Nat} {w : Nat} (h : w ∉ wl) : wordIdx wl w = .error .value := by
+theorem wordIdx_of_not_mem_mn {wl : List Nat} {w : Nat} (h : w ∉ wl) : wordIdx wl w = .error .value := by
   unfold wordIdx; rw [List.idxOf?_eq_none_iff.mpr h]; rfl
 
-theorem wordIdx_of_mem {wl : List Nat} {w : Nat} (h : w ∈ wl) : ∃ i, wordIdx wl w = .ok i := by
+theorem wordIdx_of_mem_mn {wl : List Nat} {w : Nat} (h : w ∈ wl) : ∃ i, wordIdx wl w = .ok i := by
   cases hw : wordIdx wl w with
   | ok i => exact ⟨i, rfl⟩
   | error e => exact absurd h (wordIdx_error hw).2
@@ -287,7 +287,7 @@ theorem mapM_wordIdx_map (wl : List Nat) (hn : wl.Nodup) (ds : List Nat)
       ih (fun d hd => h d (by simp [hd]))]
     rfl
 
-theorem mapM_wordIdx_ok (wl : List Nat) (ws idxs : List Nat) (h : ws.mapM (wordIdx wl) = .ok idxs) :
+theorem mapM_wordIdx_ok_mn (wl : List Nat) (ws idxs : List Nat) (h : ws.mapM (wordIdx wl) = .ok idxs) :
     (∀ i ∈ idxs, i < wl.length) ∧ ws = idxs.map (fun i => wl.getD i 0) := by
   induction ws generalizing idxs with
   | nil => cases h; simp
@@ -305,7 +305,7 @@ theorem mapM_wordIdx_ok (wl : List Nat) (ws idxs : List Nat) (h : ws.mapM (wordI
     · exact h3
     · exact h1 j hj
 
-theorem mapM_wordIdx_error (wl : List Nat) (ws : List Nat) (e : Err)
+theorem mapM_wordIdx_error_mn (wl : List Nat) (ws : List Nat) (e : Err)
     (h : ws.mapM (wordIdx wl) = .error e) : e = .value ∧ ∃ w ∈ ws, w ∉ wl := by
   induction ws with
   | nil => cases h
